@@ -383,11 +383,12 @@ func TestC22(t *testing.T) {
 	}
 	vkit.Run(t, vkit.Spec[c22Case]{
 		ID: "C22",
-		Rule: "rapid-generated instants (seconds 1e9..1e10-1 boundary-biased, fraction boundary-biased at s/ms/us/ns resolution) supplied as RFC 3339 with 0-9 fractional digits and Z / numeric offsets, as 10/13/16/19-digit integer epoch (X-Honeycomb-Event-Time header of single JSON and msgpack events, time string of JSON batch elements) or as msgpack timestamp 32/64/96 (time of msgpack batch elements; RFC 3339 / epoch strings there are judged only if accepted), 1-3 events per case, routed directly upstream or through the collector stand-in, optionally over a peer hop, forwarded by a real DirectTransmission (zstd or not, max batch 1/2/50); the time member of the batch received by the fake Honeycomb is decoded with the independent msgpack decoder. Oracle: (seconds, nanoseconds) equality. Non-trivial: an event with sub-second part != 0. Distinct = distinct case JSON.",
+		Rule: "rapid-generated instants (seconds 1e9..1e10-1 boundary-biased, fraction boundary-biased at s/ms/us/ns resolution) supplied as RFC 3339 with 0-9 fractional digits and Z / numeric offsets, as 10/13/16/19-digit integer epoch (X-Honeycomb-Event-Time header of single JSON and msgpack events, time string of JSON batch elements) or as msgpack timestamp 32/64/96 (time of msgpack batch elements; RFC 3339 / epoch strings there are judged only if accepted), 1-3 events per case, routed directly upstream or through the collector stand-in, optionally over a peer hop, forwarded by a real DirectTransmission (zstd or not, max batch 1/2/50); the time member of the batch received by the fake Honeycomb is decoded with the independent msgpack decoder. Oracle: (seconds, nanoseconds) equality. About 1 case in 85 runs the concurrent sub-mode instead: 2/4/8 client goroutines released by a barrier in each of 60 (thorough 120) rounds post same-shaped requests (JSON batches of 1-50 events with 30-character RFC 3339 times, msgpack batches and event-time-header events as controls; every event tagged with a unique id) and each forwarded time must be the one its own request supplied. Non-trivial: an event with sub-second part != 0. Distinct = distinct case JSON.",
 		Assumptions: []string{
 			"only the formats the statement lists are generated; float epochs (1535589382.641) and OTLP timestamps are outside the statement",
 			"RFC 3339 text is produced by the harness's own civil-date routine, not by package time",
 			"events the router rejects are counted, not judged",
+			"concurrent sub-mode: verdicts come only from observed values (matched by a unique id); whether two requests really overlapped inside refinery is not observable, rounds with G>1 are counted as rounds-with-concurrency",
 		},
 		Gen:  genC22,
 		Exec: execC22,
